@@ -44,7 +44,7 @@ CONSTANTS NHosts,        \* hosts 1..NHosts; the load-balancing plan is <<1, ..,
           ErrKinds,      \* answers that consult the retry policy (exception class names, "ConnectionShutdown" = connection error)
           FatalKinds,    \* error answers raised directly (e.g. "SyntaxException")
           Decisions,     \* subset of {"RETRY", "NEXT", "RETHROW", "IGNORE"}
-          CLs,           \* consistency levels the policy may return; 0 = None (keep the current one)
+          CLs,           \* what the policy may return as consistency: a level (0 = ANY, 1 = ONE, 4 = QUORUM, ..) or NoCL = None
           MaxRetries,    \* the decision oracle grants at most this many retries
           MaxEpoch,      \* 1, or 2 to include one start_fetching_next_page
           Timeouts,      \* BOOLEAN: the client timeout may fire
@@ -53,6 +53,7 @@ CONSTANTS NHosts,        \* hosts 1..NHosts; the load-balancing plan is <<1, ..,
 Hosts       == 1..NHosts
 FullPlan    == [i \in 1..NHosts |-> i]
 InitCL      == 10                        \* LOCAL_ONE, the default profile's consistency
+NoCL        == 99                        \* the policy returned None as consistency: keep the current one (ANY is 0!)
 ResultKinds == {"rows", "empty"}
 IsErr(f)    == f \notin (ResultKinds \cup {"unset"})
 
@@ -188,9 +189,9 @@ AnsOk(a, k) ==
 
 (* what the oracle may answer now *)
 DecSet == IF retries >= MaxRetries
-          THEN {<<d, 0>> : d \in Decisions \cap {"RETHROW", "IGNORE"}}
+          THEN {<<d, NoCL>> : d \in Decisions \cap {"RETHROW", "IGNORE"}}
           ELSE {<<d, c>> : d \in Decisions \cap {"RETRY", "NEXT"}, c \in CLs}
-               \cup {<<d, 0>> : d \in Decisions \cap {"RETHROW", "IGNORE"}}
+               \cup {<<d, NoCL>> : d \in Decisions \cap {"RETHROW", "IGNORE"}}
 
 (* _set_result, read/write timeout, unavailable, overloaded/bootstrapping/server error, or a          *)
 (* ConnectionShutdown delivered by the connection: consult the policy once, _handle_retry_decision.   *)
@@ -205,7 +206,7 @@ AnsErr(a, k, d, c) ==
            s2 == CASE d \in {"RETRY", "NEXT"} ->
                         LET s3 == [s1 EXCEPT !.retries = @ + 1] IN
                         IF IsErr(final) THEN s3         \* _retry: "if self._final_exception: return"
-                        ELSE [s3 EXCEPT !.cl = IF c # 0 THEN c ELSE @,
+                        ELSE [s3 EXCEPT !.cl = IF c # NoCL THEN c ELSE @,      \* `is not None`: ANY (0) is a level
                                         !.queue = Append(@, [reuse |-> (d = "RETRY"), host |-> h])]
                    [] d = "RETHROW" -> FComplete(s1, k)
                    [] d = "IGNORE"  -> FComplete(s1, "empty") IN
@@ -324,7 +325,7 @@ Step_Decision ==
          /\ act'.d = "IGNORE"  => (final' = "empty" /\ queue' = queue)
          /\ IsRetry(act'.d) => /\ final' = "unset" /\ retries' = retries + 1
                                /\ queue' = Append(queue, [reuse |-> (act'.d = "RETRY"), host |-> h])
-                               /\ cl' = IF act'.c # 0 THEN act'.c ELSE cl]_vars
+                               /\ cl' = IF act'.c # NoCL THEN act'.c ELSE cl]_vars
 (* the queued task sends to the same host / the next host of the plan with the chosen consistency *)
 Step_Task ==
     [][(act'.name = "RetryTask" /\ ~IsErr(final)) =>
@@ -375,6 +376,7 @@ Witness_Page2Unset      == ~(epoch = 2 /\ final = "unset")
 Witness_Page2Timeout    == ~(epoch = 2 /\ final = "OperationTimedOut")
 Witness_SameHostTwice   == \A i, j \in 1..Len(tried) : i # j => tried[i] # tried[j]
 Witness_RetryCL         == cl = InitCL
+Witness_RetryAtANY      == ~(cl = 0 /\ sentLog # <<>> /\ sentLog[Len(sentLog)].cl = 0)
 Witness_NoHost          == final # "NoHostAvailable"
 Witness_NoHostAfterSend == ~(final = "NoHostAvailable" /\ sentLog # <<>>)
 Witness_SkipAll         == ~(started /\ Cardinality({h \in Hosts : errs[h] # "none"}) = NHosts)
